@@ -17,8 +17,8 @@ pub(crate) struct PhoneticMethod {
     suggestion: PhoneticSuggestion,
     // Candidate selections.
     selections: HashMap<String, String, RandomState>,
-    // Last modification of the user's auto correct file.
-    modified: SystemTime,
+    // Last modification of the user's auto correct file, `None` if no file is loaded.
+    modified: Option<SystemTime>,
     // Previously selected candidate index of the current suggestion list.
     prev_selection: usize,
 }
@@ -38,12 +38,9 @@ impl PhoneticMethod {
             if let Ok(mut file) = File::open(config.get_user_phonetic_autocorrect()) {
                 let modified = modified_time(&file);
                 let autocorrect = parse_autocorrect(&read(&mut file));
-                (modified, autocorrect)
+                (Some(modified), autocorrect)
             } else {
-                (
-                    SystemTime::UNIX_EPOCH,
-                    HashMap::with_hasher(RandomState::new()),
-                )
+                (None, HashMap::with_hasher(RandomState::new()))
             }
         };
 
@@ -147,16 +144,16 @@ impl Method for PhoneticMethod {
             let modified = modified_time(&file);
             // Update the auto correct entries if only the file was changed in the meantime
             // (a restored file may be older than the one it replaces).
-            if modified != self.modified {
+            if Some(modified) != self.modified {
                 self.suggestion
                     .set_user_autocorrect(parse_autocorrect(&read(&mut file)));
-                self.modified = modified;
+                self.modified = Some(modified);
             }
-        } else if self.modified != SystemTime::UNIX_EPOCH {
+        } else if self.modified.is_some() {
             // The file is gone, so its entries are no longer in effect.
             self.suggestion
                 .set_user_autocorrect(HashMap::with_hasher(RandomState::new()));
-            self.modified = SystemTime::UNIX_EPOCH;
+            self.modified = None;
         }
     }
 
@@ -217,7 +214,7 @@ impl Default for PhoneticMethod {
             buffer: String::new(),
             suggestion: PhoneticSuggestion::new(HashMap::with_hasher(RandomState::new())),
             selections: HashMap::with_hasher(RandomState::new()),
-            modified: SystemTime::UNIX_EPOCH,
+            modified: None,
             prev_selection: 0,
         }
     }
